@@ -494,23 +494,27 @@ def _r_harnesses(prefix):
     L = []
     for reg, rn in ((0, 'npc'), (1, 'eqr'), (2, 'spc')):
         for neg in (0, 1):
-            L.append(H('%s_r_%s_%s' % (prefix, rn, 'neg' if neg else 'pos'), 'k_c01_r(%d, %s);' % (reg, 'true' if neg else 'false'), tiers=Q, timeout=2400,
-                       mem_gb=6, unwind=3, stubs=_LIBM, inputs=[('lon', 'f64'), ('lat', 'f64')], replay='c01_all_depths', covers=['second turn', 'zero longitude'],
-                       domain='lemma R on the real Layer::d0h_lh_in_d0c: every double lon %s in [-25.2, 25.2], every lat of the %s region'
-                              % ('< 0 (sign bit set)' if neg else '>= 0', {'npc': 'north polar cap', 'eqr': 'equatorial', 'spc': 'south polar cap'}[rn])))
+            for lite in (0,):
+                # north cap: (2 - t) + x t < 2 + 2^-28 needs the monotonicity of a 53x53 float multiplier: ~20-25 min per harness => thorough tier;
+                # in the quick tier the north cap is covered end to end at depths 0..3 (c01_e2e_*) only
+                L.append(H('%s_r%s_%s_%s' % (prefix, 'lite' if lite else '', rn, 'neg' if neg else 'pos'), 'k_c01_r(%d, %s, %s);' % (reg, 'true' if neg else 'false', 'true' if lite else 'false'),
+                           tiers=(T if (reg == 0 and not lite) else Q), timeout=3600, mem_gb=6, unwind=3, stubs=_LIBM, inputs=[('lon', 'f64'), ('lat', 'f64')],
+                           replay='c01_all_depths', covers=['second turn', 'zero longitude'],
+                           domain='lemma R%s on the real Layer::d0h_lh_in_d0c: every double lon %s in [-25.2, 25.2], every lat of the %s region'
+                                  % (' (without the sign clause)' if lite else '', '< 0 (sign bit set)' if neg else '>= 0', {'npc': 'north polar cap', 'eqr': 'equatorial', 'spc': 'south polar cap'}[rn])))
     return L
 
 
 _c01 += _r_harnesses('c01')
 for reg, rn in ((0, 'npc'), (1, 'eqr'), (2, 'spc')):
     for neg in (0, 1):
-        for bits in ((0,) if reg == 1 else (0, 6)):
-            _c01.append(H('c01_p_%s_%s%s' % (rn, 'neg' if neg else 'pos', '_prod%d' % bits if bits else ''),
+        for bits in ((0,) if reg == 1 else (0, 255, 6)):
+            _c01.append(H('c01_p_%s_%s%s' % (rn, 'neg' if neg else 'pos', ('_mag' if bits == 255 else '_prod%d' % bits) if bits else ''),
                           'k_c01_p(%d, %s, %d);' % (reg, 'true' if neg else 'false', bits), tiers=(Q if bits == 0 else T), timeout=2400, mem_gb=6, unwind=3,
                           stubs=_LIBM, inputs=[('lon', 'f64'), ('lat', 'f64')], replay='c01_all_depths',
-                          covers=['second turn'] + (['product clause reached'] if bits else []),
+                          covers=['second turn'] + (['product clause reached'] if bits not in (0, 255) else []),
                           domain='lemma P on the real Layer::d0h_lh_in_d0c: lon %s, %s region: base cell, h and side / range of l against the reference projection (2^-46)%s'
-                                 % ('< 0' if neg else '>= 0', rn, ('; exact l for cosines with <= %d significant bits' % bits) if bits else '')))
+                                 % ('< 0' if neg else '>= 0', rn, ('; |l| <= t' if bits == 255 else '; exact l for cosines with <= %d significant bits' % bits) if bits else '')))
 for (lo, hi) in ((0, 0), (1, 8), (9, 16), (17, 29)):
     _c01.append(H('c01_s_d%d_%d' % (lo, hi), 'k_c01_s(%d, %d);' % (lo, hi), tiers=Q, timeout=1800, mem_gb=8, unwind=max(4, hi + 1),
                   stubs=[(a, b % 'c01') for a, b in _CUT], inputs=[('depth', 'u8'), ('d0h', 'u8'), ('l', 'f64'), ('h', 'f64')], replay='c01_pullback',
